@@ -372,7 +372,9 @@ func genRequest(r *vlib.Rand, w *wcfg, st *state) *request {
 	if r.Chance(1, 5) {
 		q.MinSig = 1 + r.Intn(2)
 	}
-	if q.Rfc != 0 && q.MinSig != 0 && !r.Chance(1, 6) {
+	if os.Getenv("VERIF_C13_FORCE_HANG") != "" {
+		q.Rfc, q.MinSig = 1+r.Intn(2), 1+r.Intn(2)
+	} else if q.Rfc != 0 && q.MinSig != 0 && !r.Chance(1, 6) {
 		q.MinSig = 0 // the combination is exercised, but rarely (see FINDINGS: it can hang)
 	}
 	if r.Chance(1, 4) {
